@@ -529,6 +529,21 @@ class Effects:
         if node.kind == "for":
             it = self.val(a.iter, st)
             self._walk_calls(a.iter, st, record)
+            # zip / enumerate hand out one element of EACH operand: bind the targets position by position
+            itc = a.iter
+            if isinstance(itc, ast.Call) and not itc.keywords and isinstance(a.target, ast.Tuple) \
+                    and not any(isinstance(x, ast.Starred) for x in list(itc.args) + list(a.target.elts)):
+                dn = dotted(itc.func) or ""
+                if dn == "zip" and len(itc.args) == len(a.target.elts):
+                    for tg, arg_ in zip(a.target.elts, itc.args):
+                        v = self.val(arg_, st)
+                        self._bind(tg, (v[1] | v[0], deepen(v[1])), st)
+                    return
+                if dn == "enumerate" and len(itc.args) == 1 and len(a.target.elts) == 2:
+                    v = self.val(itc.args[0], st)
+                    self._bind(a.target.elts[0], FRESHV, st)
+                    self._bind(a.target.elts[1], (v[1] | v[0], deepen(v[1])), st)
+                    return
             self._bind(a.target, (it[1] | it[0], deepen(it[1])), st)
             return
         if node.kind == "with":
